@@ -394,6 +394,10 @@ CLAIM = {'text': "Decides that the tables which turn 'how the plan ended' into e
 
 RE = "run_engine.py"
 MUTANTS = [
+    ("FailedPause made a control exception with a status RunStop does not have (seed C01-c)",
+     [("utils/__init__.py", "class FailedPause(Exception):\n    pass\n", "class FailedPause(RunEngineControlException):\n    exit_status = \"aborted\"\n")], "C02.D1"),
+    ("new control exception with an illegal status",
+     [("utils/__init__.py", "class RunEngineInterrupted(Exception):\n    pass\n", "class RequestHalt(RequestStop):\n    exit_status = \"halted\"\n\n\nclass RunEngineInterrupted(Exception):\n    pass\n")], "C02.D1"),
     ("reason fallback inverted (the abort reason replaces a recorded failure text)",
      [(RE, "            if not exit_reason:\n                exit_reason = self._reason", "            if exit_reason:\n                exit_reason = self._reason")], "C02.D2"),
     ("reason fallback written with `and` instead of `or`",
@@ -426,6 +430,7 @@ MUTANTS = [
      [(RE, "        was_paused = self._state == \"paused\"\n        self._state = \"stopping\"", "        was_paused = self._state == \"paused\"\n        self._state = \"aborting\"")], "C02.D1"),
 ]
 BENIGN = [
+    ("new control exception with a legal status", [("utils/__init__.py", "class RunEngineInterrupted(Exception):\n    pass\n", "class RequestFail(RunEngineControlException):\n    exit_status = \"fail\"\n\n\nclass RequestFail2(RequestFail):\n    pass\n\n\nclass RunEngineInterrupted(Exception):\n    pass\n")]),
     ("reason fallback written with `or`",
      [(RE, "            if not exit_reason:\n                exit_reason = self._reason", "            exit_reason = exit_reason or self._reason")]),
     ("reason fallback written as a conditional expression",
